@@ -186,7 +186,6 @@ impl Monitor for C06 {
                 }
             }
             let pre_n = *r.pick(&[0usize, 0, 1, 3, 4, 17, 300, 4096]);
-            let pre_n = if w == 3 && !variant.contains("envelope=true") { pre_n.max(4) } else { pre_n };
             let pre = wrap::junk(&mut r, pre_n, hostile);
             let suf_n = *r.pick(&[0usize, 0, 1, 8, 100, 4096]);
             let mut suf = wrap::junk(&mut r, suf_n, hostile);
